@@ -258,7 +258,7 @@ def hook_key(hook, site):
     if hook in ("metaclass.__hash__", "metaclass.__eq__"):
         # class objects are hashed / compared wherever types are put into typing generics, sets and caches: one mechanism per
         # source file (listed findings for the files where the representation of types makes it unavoidable)
-        return f"class-object-hashed-or-compared-via-its-metaclass@{site.split(':')[0]}"
+        return f"class-object-hashed-or-compared-via-its-metaclass@{site}"
     if hook.startswith("metaclass.__getattribute__:") and site.startswith("encoding.py:"):
         # serialising a class reads its __module__ / __qualname__ / __args__ the ordinary way, i.e. through the metaclass
         return "class-attributes-read-through-its-metaclass-when-serialising@encoding.py"
